@@ -8,11 +8,15 @@ CONFIG = {
                  "independent transcription of the W3C Recommendation (Rdfc10Spec.lean, one definition per numbered step) - run on the "
                  "same requests as the real normalize*/relabel*; the implementation's bytes are compared with the SPECIFICATION model's on every case; "
                  "kernel-checked theorems about errors and limits; native_decide witness of the divergence",
-    "level_text": "Proof (all inputs, all hashes/limits): Unsupported is returned exactly for blank predicates / quoted triples / variables "
-                  "(unsupported_iff), and the non-standard safeguards only ever turn a result into an error, never change one (limits_only_fail). "
-                  "Conformance of the output to RDFC-1.0 is NOT a theorem: it is refuted (C06_witness, native_decide) and otherwise established "
-                  "differentially - implementation vs transcription of the Recommendation on exhaustive small datasets (<= 2 quads quick, <= 3 thorough, "
-                  "over 3 blank nodes / IRI / literal / 3 graph names), the symmetric families, the shipped examples and random graphs.",
+    "level_text": "Proof (all inputs, all hashes/limits, kernel-checked): (impl_eq_spec_partial) on RDF datasets without self-referencing quads whose "
+                  "first-degree hashes are pairwise distinct - where Hash N-Degree Quads is never entered - the model of the implementation and the "
+                  "transcription of the Recommendation (4.4.3 steps 1-6, 4.5, 4.6, canonical N-Quads) produce the same bytes; (escapes_as_specified) the "
+                  "escape table regenerated from _cnq.rs is the canonical N-Quads rule for every character; (unsupported_iff) Unsupported is returned "
+                  "exactly for rejected predicates / quoted triples / variables; (limits_only_fail) the non-standard safeguards only ever turn a result "
+                  "into an error, never change one. Conformance beyond that fragment (4.7, 4.8: Hash Related / Hash N-Degree) is NOT a theorem: it is "
+                  "refuted (C06_witness, native_decide) and otherwise established differentially - implementation vs transcription on exhaustive "
+                  "small datasets (<= 2 quads quick, <= 3 thorough, over 3 blank nodes / IRI / literal / 3 graph names), the symmetric families, the "
+                  "shipped examples and random graphs.",
     "level_note": "Trusted: my offline transcription of the Recommendation of 21 May 2024 (4.4.3, 4.5-4.8). Demanded LESS where unsure: canonical N-Quads "
                   "escaping is shared with the implementation model (only the table regenerated from _cnq.rs is used; XML-Char clause for U+FFFE/FFFF not "
                   "demanded); step 2.1 is accepted in both readings (one reference per blank node of a quad - my reading - or one per occurrence - what the "
@@ -21,7 +25,7 @@ CONFIG = {
                   "automorphism). Known findings: smaller_path prunes on length alone (5.4.4.3/5.4.5.5); unwrap panic on a literal predicate.",
     "tables": ["cnq_escapes", "rdfc10_smaller_path"],
     "lean_targets": ["SophiaProofs.Props.C06", "SophiaProofs.Audit.C06"],
-    "theorems": ["escapes_as_specified", "unsupported_iff", "normalize_unsupported_iff", "limits_only_fail", "normalize_limits_only_fail", "C06_witness",
+    "theorems": ["impl_eq_spec_partial", "escapes_as_specified", "unsupported_iff", "normalize_unsupported_iff", "limits_only_fail", "normalize_limits_only_fail", "C06_witness",
                  "C06_witness_attributed", "not_implEqSpec"],
     "native_ok": ["C06_witness", "C06_witness_attributed", "not_implEqSpec"],
     "trivial_re": r"^st=unsupported|^h=",
